@@ -8,10 +8,12 @@
    At the level of the document (both layouts, C15_over_iff_document_unsat): over-constraint is
    reported exactly when no assignment of bases to the nucleotides of the declared sequences
    respects their templates, the equal statements and the base pairs of the target structures
-   (doc_sat), under the per-case booleans same_graph / spec_okb / dgraph_ok. *)
+   (doc_sat), under the booleans same_graph / spec_okb / dgraph_ok - which are theorems for every loaded and seeded
+   document in both layouts (C15_loaded_..., C15_struct_...).  In the strand layout seed never fails on a loaded
+   document; in the structure layout it succeeds exactly when every strand with nucleotides occurs in a structure. *)
 From Coq Require Import List String Ascii Arith.
 From PC Require Import Base.Codes Comp.Syntax Comp.Compile Design.Propagate Design.PropagateProofs Design.Designer Design.DesignerProofs Design.TemplateProofs
-  Design.Contraction Design.DGraph Design.DenoteGraph Design.DenoteTie Design.DenoteSat Design.Loaded Design.SeedTotal.
+  Design.Contraction Design.DGraph Design.DenoteGraph Design.DenoteTie Design.DenoteSat Design.Loaded Design.SeedTotal Design.LoadProofs Design.StructTotal Design.LoadedStruct.
 Import ListNotations.
 
 Theorem C15_odd_cycle_reported : forall g m,
@@ -100,3 +102,30 @@ Print Assumptions C15_design_arrays_error.
 Theorem C15_seed_total : forall ls p, load_spec ls pspec0 = OK p -> exists g, seed p false = OK (build_layout p false, g).
 Proof. exact seed_total. Qed.
 Print Assumptions C15_seed_total.
+
+(* structure-oriented layout, every loaded and seeded document *)
+Theorem C15_struct_loaded_over_iff_document_unsat : forall (ls : list pline) (p : pspec) (lay : layout) (g : cgraph),
+  load_spec ls pspec0 = OK p -> seed p true = OK (lay, g) ->
+  (get_constraints p true = DOver <-> ~ doc_sat p true).
+Proof. exact sloaded_over_iff_document_unsat. Qed.
+Print Assumptions C15_struct_loaded_over_iff_document_unsat.
+
+Theorem C15_struct_design_arrays_cases : forall ls : list pline, (exists k, design_arrays ls true = DErr k) \/
+  exists p lay g, load_spec ls pspec0 = OK p /\ seed p true = OK (lay, g) /\
+    (design_arrays ls true = DOver \/ exists e w s, design_arrays ls true = DOk e w s).
+Proof. exact design_arrays_cases_struct. Qed.
+Print Assumptions C15_struct_design_arrays_cases.
+
+(* in the structure layout seed succeeds on a loaded document exactly when every strand with nucleotides
+   occurs in a structure, and every such document gets the report or arrays *)
+Theorem C15_struct_seed_iff_placed : forall ls p, load_spec ls pspec0 = OK p ->
+  ((exists g, seed p true = OK (build_layout p true, g)) <->
+   (forall n items l d, In (n, (items, l, d)) (p_strands p) -> l <> 0 -> first_inst_in p (p_structs p) n <> None)).
+Proof. exact seed_struct_iff_placed. Qed.
+Print Assumptions C15_struct_seed_iff_placed.
+
+Theorem C15_struct_loaded_design_total : forall ls p, load_spec ls pspec0 = OK p ->
+  (forall n items l d, In (n, (items, l, d)) (p_strands p) -> l <> 0 -> first_inst_in p (p_structs p) n <> None) ->
+  design_arrays ls true = DOver \/ exists e w s, design_arrays ls true = DOk e w s.
+Proof. exact sloaded_design_total. Qed.
+Print Assumptions C15_struct_loaded_design_total.
